@@ -5,6 +5,7 @@ comparable with the Rust script process; `ScriptProcDefault` keeps the library's
 attribute) and additionally mutates list / nested / lazily created attributes, to exercise save/restore and
 deepcopy."""
 import json
+import random
 from anysystem import Context, Message, Process
 
 
@@ -23,7 +24,12 @@ class ScriptProc(Process):
     def _mutate(self, trig):
         pass
 
+    def _mk(self, holder, tip, data):
+        """the message object handed to ctx.send / ctx.send_local"""
+        return Message(tip, data)
+
     def _react(self, trig, data, ctx):
+        holder = [None]
         if self.record:
             self.hist.append(trig_code(trig))
         self._mutate(trig)
@@ -41,9 +47,9 @@ class ScriptProc(Process):
             def dat(tok):
                 return data if tok == "$" else json.loads(tok[1:])
             if parts[0] == "S":
-                ctx.send(Message(parts[1], dat(parts[2])), parts[3])
+                ctx.send(self._mk(holder, parts[1], dat(parts[2])), parts[3])
             elif parts[0] == "L":
-                ctx.send_local(Message(parts[1], dat(parts[2])))
+                ctx.send_local(self._mk(holder, parts[1], dat(parts[2])))
             elif parts[0] == "T":
                 ctx.set_timer(parts[1], int(parts[2]) * 0.5)
             elif parts[0] == "O":
@@ -85,6 +91,23 @@ class ScriptProcDefault(ScriptProc):
         if trig.startswith("T:"):
             self.lazy = getattr(self, "lazy", 0) + 1   # attribute that does not exist in earlier states
 
+    def _mk(self, holder, tip, data):
+        # one Message object per handler call, modified between the sends (stamping a field, forwarding a changed copy):
+        # every send must relay the content the object has at that moment
+        m = holder[0]
+        if m is None:
+            m = holder[0] = Message(tip, json.loads(json.dumps(data)))   # own copy: `data` may be the trigger's payload
+        elif isinstance(m._data, dict) and isinstance(data, dict):
+            m._type = tip
+            for k in list(m._data):
+                m.remove(k)
+            for k, x in json.loads(json.dumps(data)).items():
+                m[k] = x
+        else:
+            m._type = tip
+            m._data = json.loads(json.dumps(data))
+        return m
+
     get_state = Process.get_state
     set_state = Process.set_state
 
@@ -103,3 +126,16 @@ class ScriptProcShared(ScriptProc):
     def on_local_message(self, msg, ctx):
         super().on_local_message(msg, ctx)
         ctx.send_local(Message("seen", len(self.seen)))
+
+
+class ScriptProcRandom(ScriptProc):
+    """draws from Python's `random` module (seeded by PyProcessFactory.build) in the constructor and in every handler, and
+    reports both with every local message handled: same seed, same values, in one OS process and across OS processes"""
+
+    def __init__(self, rules_json, record):
+        super().__init__(rules_json, record)
+        self.ticket = random.randrange(1 << 30)
+
+    def on_local_message(self, msg, ctx):
+        super().on_local_message(msg, ctx)
+        ctx.send_local(Message("rnd", [self.ticket, random.randrange(1 << 30)]))
